@@ -760,7 +760,7 @@ def c18_shapes(tier):
     return shapes
 
 
-WIDE_PROPS = ('C02', 'C03', 'C05', 'C06', 'C08')
+WIDE_PROPS = ('C02', 'C03', 'C05', 'C06', 'C07', 'C08')
 
 
 def widened(shapes):
